@@ -8,6 +8,7 @@ Import ListNotations.
 Open Scope Z_scope.
 
 Ltac sg := unfold get, set, set_buf in *; cbn [s_var s_buf var_eqb Nat.eqb] in *.
+Ltac gs := repeat (rewrite get_set_same || rewrite get_set_other by reflexivity).
 
 Section Tie.
 Context {V : Type}.
@@ -109,5 +110,292 @@ Proof.
     rewrite A0, A1, A2, O0, O1, O2, N0, N1, N2, C0, C1, C2, Ra, Rb, Rc.
     pose proof two64_pos. assert (T : 2 ^ 32 < two64) by reflexivity. repeat split; try lia; timeout 20 nia.
 Qed.
+
+(* ================================================================== loop nests, generic in the write statement W *)
+Definition local (v : var) : bool := match v with VIdx _ | VCnt _ | VArg _ | VLoc _ => true | _ => false end.
+
+Lemma frame_set (g : wgrid) (s : state) v z : local v = true -> frame g s -> frame g (set s v z).
+Proof.
+  intros L. unfold frame, frame3, frame2. destruct v; try discriminate L; destruct (g_dim3 g); sg; exact (fun H => H).
+Qed.
+Lemma frame_set_buf (g : wgrid) (s : state) b : frame g s -> frame g (set_buf s b).
+Proof. unfold frame, frame3, frame2. destruct (g_dim3 g); sg; exact (fun H => H). Qed.
+
+Lemma run_up_S n i : run_up n (S i) = run_up n i ++ [(i mod n)%nat].
+Proof. unfold run_up. rewrite seq_S, map_app. reflexivity. Qed.
+Lemma run_down_S n i : run_down n (S i) = run_down n i ++ [((S i * (n - 1)) mod n)%nat].
+Proof. unfold run_down. rewrite seq_S, map_app. reflexivity. Qed.
+Lemma all_S n : all (S n) = all n ++ [n]. Proof. unfold all. rewrite seq_S. reflexivity. Qed.
+
+Section Generic.
+Variables (g : wgrid) (e : V) (kx ky kz : Z).
+Hypothesis Hv : valid g.
+Hypothesis Hk : - two31 <= kx < two31 /\ - two31 <= ky < two31 /\ - two31 <= kz < two31.
+
+Definition blank (cells : list idx) : list V := fold_left (fun b c => set_nth (lin g c) e b) cells (g_buf g).
+Definition pars (s : state) : Prop :=
+  get s (VPar 0) = kx /\ get s (VPar 1) = ky /\ (g_dim3 g = true -> get s (VPar 2) = kz).
+Definition St (cells : list idx) (s : state) : Prop := frame g s /\ pars s /\ s_buf s = blank cells.
+Definition yz_at (s : state) (y z : nat) : Prop :=
+  get s (VIdx 1) = Z.of_nat y /\ (if g_dim3 g then get s (VIdx 2) = Z.of_nat z else z = 0%nat).
+Definition z_at (s : state) (z : nat) : Prop := if g_dim3 g then get s (VIdx 2) = Z.of_nat z else z = 0%nat.
+
+Lemma St_set cells s v z : local v = true -> St cells s -> St cells (set s v z).
+Proof.
+  intros L (F & P & B). split; [apply frame_set; assumption|]. split; [|exact B].
+  unfold pars in *. destruct v; try discriminate L; sg; exact P.
+Qed.
+
+Lemma frame_N0 s : frame g s -> get s (VN 0) = Z.of_nat (g_nx g).
+Proof. unfold frame, frame3, frame2. destruct (g_dim3 g); tauto. Qed.
+Lemma frame_N1 s : frame g s -> get s (VN 1) = Z.of_nat (g_ny g).
+Proof. unfold frame, frame3, frame2. destruct (g_dim3 g); tauto. Qed.
+Lemma frame_M0 s : frame g s -> get s (VNm1 0) = Z.of_nat (g_nx g) - 1.
+Proof. unfold frame, frame3, frame2. destruct (g_dim3 g); tauto. Qed.
+Lemma frame_M1 s : frame g s -> get s (VNm1 1) = Z.of_nat (g_ny g) - 1.
+Proof. unfold frame, frame3, frame2. destruct (g_dim3 g); tauto. Qed.
+
+Lemma n_bounds : (0 < g_nx g)%nat /\ (0 < g_ny g)%nat /\ (0 < g_nz g)%nat /\
+  Z.of_nat (g_nx g) < 2 ^ 31 /\ Z.of_nat (g_ny g) < 2 ^ 31 /\ Z.of_nat (g_nz g) < 2 ^ 31.
+Proof. destruct Hv as (A & B & C & _ & _ & _ & _ & _ & D). tauto. Qed.
+
+(* the write statement: buffer_[computeCellLinearIndex_(cellIndexes)] = emptyValue *)
+Variable W : stmt.
+Hypothesis HW : forall cells s x y z, St cells s -> get s (VIdx 0) = Z.of_nat x -> yz_at s y z ->
+  (x < g_nx g)%nat -> (y < g_ny g)%nat -> (z < g_nz g)%nat ->
+  exists s', exec e W s = Some s' /\ St (cells ++ [(x, y, z)]) s' /\ (forall v, get s' v = get s v).
+
+Definition row (y z : nat) (xs : list nat) : list idx := map (fun x => (x, y, z)) xs.
+
+(* advance statements  i = (i + 1) % n  and  i = (i + n - 1) % n  on axis a (semantic shape) *)
+Definition adv_up_spec (A : stmt) (a : nat) : Prop :=
+  forall (s : state) i n, get s (VN a) = Z.of_nat n -> get s (VIdx a) = Z.of_nat i -> (i < n)%nat -> Z.of_nat n < 2 ^ 31 ->
+    exec e A s = Some (set s (VIdx a) (Z.of_nat ((i + 1) mod n))).
+Definition adv_down_spec (A : stmt) (a : nat) : Prop :=
+  forall (s : state) i n, get s (VN a) = Z.of_nat n -> get s (VNm1 a) = Z.of_nat n - 1 ->
+    get s (VIdx a) = Z.of_nat i -> (i < n)%nat -> Z.of_nat n < 2 ^ 31 ->
+    exec e A s = Some (set s (VIdx a) (Z.of_nat ((i + (n - 1)) mod n))).
+
+Lemma up_idx n j : (0 < n)%nat -> ((j mod n + 1) mod n = (S j) mod n)%nat.
+Proof. intros H. rewrite Nat.add_mod_idemp_l by lia. f_equal. lia. Qed.
+Lemma down_idx n j : (0 < n)%nat -> (((j * (n - 1)) mod n + (n - 1)) mod n = (S j * (n - 1)) mod n)%nat.
+Proof. intros H. rewrite Nat.add_mod_idemp_l by lia. f_equal. lia. Qed.
+
+(* the coordinates of the enclosing loops *)
+Definition at_outer (a : nat) (s : state) (y z : nat) : Prop :=
+  match a with O => yz_at s y z | S O => z_at s z | _ => True end.
+Lemma at_outer_ext a s s' y z :
+  (forall b, (a < b)%nat -> get s' (VIdx b) = get s (VIdx b)) -> at_outer a s y z -> at_outer a s' y z.
+Proof.
+  intros H. destruct a as [|[|a]]; cbn; unfold yz_at, z_at; [| |tauto].
+  - rewrite (H 1%nat), (H 2%nat) by lia. tauto.
+  - rewrite (H 2%nat) by lia. tauto.
+Qed.
+
+Section Axis.
+Variables (a n : nat) (k : Z) (B : stmt) (cellsof : nat -> list idx) (m : var -> bool) (y z : nat).
+Hypothesis Hn : (0 < n)%nat /\ Z.of_nat n < 2 ^ 31.
+Hypothesis HNa : forall s, frame g s -> get s (VN a) = Z.of_nat n /\ get s (VNm1 a) = Z.of_nat n - 1.
+Hypothesis Hka : forall s, pars s -> get s (VPar a) = k.
+Hypothesis Hkr : - two31 <= k < two31.
+Hypothesis Hm_outer : forall b, (a < b)%nat -> m (VIdx b) = false.
+Hypothesis Hm_a : m (VIdx a) = false.
+Hypothesis HB : forall cells s i, St cells s -> get s (VIdx a) = Z.of_nat i -> at_outer a s y z -> (i < n)%nat ->
+  exists s', exec e B s = Some s' /\ St (cells ++ cellsof i) s' /\ (forall v, m v = false -> get s' v = get s v).
+
+Lemma flat_map_snoc {X Y} (f : X -> list Y) l x : flat_map f (l ++ [x]) = flat_map f l ++ f x.
+Proof. rewrite flat_map_app. cbn. rewrite app_nil_r. reflexivity. Qed.
+
+Lemma outer_keep (s s' : state) (P : var -> Prop) :
+  (forall v, P v -> get s' v = get s v) -> (forall b, (a < b)%nat -> P (VIdx b)) ->
+  at_outer a s y z -> at_outer a s' y z.
+Proof. intros H1 H2. apply at_outer_ext. intros b Hb. apply H1, H2, Hb. Qed.
+
+(* ---- for (i = 0; i < n; i++) B *)
+Lemma axis_full init cond step count cells s :
+  (forall s : state, exec e init s = Some (set s (VIdx a) 0)) ->
+  (forall s : state, eval cond s = Some (b2z (get s (VIdx a) <? get s (VN a)))) ->
+  (forall s : state, exec e step s = Some (set s (VIdx a) ((get s (VIdx a) + 1) mod two64))) ->
+  (forall s : state, eval count s = Some (get s (VN a) - get s (VIdx a))) ->
+  St cells s -> at_outer a s y z ->
+  exists s', exec e (SFor init cond step B count) s = Some s' /\ St (cells ++ flat_map cellsof (all n)) s' /\
+             (forall v, m v = false -> var_eqb v (VIdx a) = false -> get s' v = get s v).
+Proof.
+  intros Hi Hc Hs Hcn HSt Hout.
+  destruct (loop_full e init cond step B count (VIdx a) (VN a) n
+              (fun j sj => St (cells ++ flat_map cellsof (all j)) sj /\
+                           (forall v, m v = false -> var_eqb v (VIdx a) = false -> get sj v = get s v)) s Hi Hc Hs Hcn eq_refl)
+    as (s' & E & (HS' & Hk') & _).
+  - assert (T : 2 ^ 31 < two64) by reflexivity. lia.
+  - apply HNa, HSt.
+  - cbn. rewrite app_nil_r. split; [apply St_set; [reflexivity|exact HSt]|]. intros v _ Hva. apply get_set_other, Hva.
+  - intros j sj Hj (HSj & Hkj) Hvj Hbj.
+    assert (Houtj : at_outer a sj y z).
+    { apply (outer_keep s sj (fun v => m v = false /\ var_eqb v (VIdx a) = false)); [intros v [? ?]; auto| |exact Hout].
+      intros b Hb. split; [apply Hm_outer, Hb|]. cbn. apply Nat.eqb_neq. lia. }
+    destruct (HB _ sj j HSj Hvj Houtj Hj) as (s1 & E1 & S1 & G1).
+    exists s1. split; [exact E1|]. rewrite (G1 _ Hm_a). split; [exact Hvj|].
+    assert (Mn : m (VN a) = false \/ True) by tauto.
+    split. { destruct (HNa s1 (proj1 S1)) as [-> _]. reflexivity. }
+    rewrite all_S, flat_map_snoc, app_assoc. split; [apply St_set; [reflexivity|exact S1]|].
+    intros v Hmv Hva. rewrite get_set_other by exact Hva. rewrite G1 by exact Hmv. apply Hkj; assumption.
+  - eauto.
+Qed.
+
+Hypothesis Hm_cnt : m (VCnt 0) = false.
+
+(* ---- for (c = 0; c < k; c++) { B; i = (i + 1) % n; }   entered with i = 0 *)
+Lemma axis_up init cond step count A cells s :
+  (forall s : state, exec e init s = Some (set s (VCnt 0) 0)) ->
+  (forall s : state, eval cond s = Some (b2z (get s (VCnt 0) <? get s (VPar a)))) ->
+  (forall s : state, exec e step s = match norm I32 (get s (VCnt 0) + 1) with Some z => Some (set s (VCnt 0) z) | None => None end) ->
+  (forall s : state, eval count s = Some (get s (VPar a) - get s (VCnt 0))) ->
+  adv_up_spec A a ->
+  St cells s -> at_outer a s y z -> get s (VIdx a) = 0 ->
+  exists s', exec e (SFor init cond step (SSeq B A) count) s = Some s' /\
+             St (cells ++ flat_map cellsof (run_up n (Z.to_nat k))) s' /\
+             (forall v, m v = false -> var_eqb v (VIdx a) = false -> var_eqb v (VCnt 0) = false -> get s' v = get s v) /\
+             (k <= 0 -> get s' (VIdx a) = 0).
+Proof.
+  intros Hi Hc Hs Hcn HA HSt Hout Hx0. destruct Hn as [Pn Bn].
+  destruct (loop_up e init cond step (SSeq B A) count (VCnt 0) (VPar a) k
+              (fun j sj => St (cells ++ flat_map cellsof (run_up n j)) sj /\
+                 (forall v, m v = false -> var_eqb v (VIdx a) = false -> var_eqb v (VCnt 0) = false -> get sj v = get s v) /\
+                 get sj (VIdx a) = Z.of_nat (j mod n)) s Hi Hc Hs Hcn eq_refl Hkr)
+    as (s' & E & (HS' & Hk' & Hx')).
+  - apply Hka, HSt.
+  - cbn. rewrite app_nil_r. split; [apply St_set; [reflexivity|exact HSt]|].
+    split; [intros v _ _ Hvc; apply get_set_other, Hvc|]. gs. rewrite Nat.mod_0_l by lia. exact Hx0.
+  - intros j sj Hj (HSj & Hkj & Hxj) Hcj Hbj.
+    assert (Hlt : (j mod n < n)%nat) by (apply Nat.mod_upper_bound; lia).
+    assert (Houtj : at_outer a sj y z).
+    { apply (outer_keep s sj (fun v => m v = false /\ var_eqb v (VIdx a) = false /\ var_eqb v (VCnt 0) = false));
+        [intros v (? & ? & ?); auto| |exact Hout].
+      intros b Hb. split; [apply Hm_outer, Hb|]. split; [|reflexivity]. cbn. apply Nat.eqb_neq. lia. }
+    destruct (HB _ sj _ HSj Hxj Houtj Hlt) as (s1 & E1 & S1 & G1).
+    cbn [exec]. rewrite E1. cbn [bind].
+    rewrite (HA s1 (j mod n)%nat n); [| apply HNa, S1 | rewrite (G1 _ Hm_a); exact Hxj | exact Hlt | exact Bn].
+    eexists; split; [reflexivity|]. gs. rewrite (G1 _ Hm_cnt). split; [exact Hcj|].
+    split. { rewrite <- Hbj. rewrite !(Hka _ (proj1 (proj2 S1))), !(Hka _ (proj1 (proj2 HSj))). reflexivity. }
+    rewrite run_up_S, flat_map_snoc, app_assoc.
+    split; [apply (St_set _ _ (VCnt 0)); [reflexivity|]; apply (St_set _ _ (VIdx a)); [reflexivity|exact S1]|].
+    split.
+    + intros v Hmv Hva Hvc. rewrite get_set_other by exact Hvc. rewrite get_set_other by exact Hva.
+      rewrite G1 by exact Hmv. apply Hkj; assumption.
+    + rewrite up_idx by lia. reflexivity.
+  - exists s'. split; [exact E|]. split; [exact HS'|]. split; [exact Hk'|].
+    intros Hle. rewrite Hx'. replace (Z.to_nat k) with O by lia. rewrite Nat.mod_0_l by lia. reflexivity.
+Qed.
+
+(* ---- for (c = 0; c > k; c--) { i = (i + n - 1) % n; B; }   entered with i = 0 when it runs at all *)
+Lemma axis_down init cond step count A cells s :
+  (forall s : state, exec e init s = Some (set s (VCnt 0) 0)) ->
+  (forall s : state, eval cond s = Some (b2z (get s (VPar a) <? get s (VCnt 0)))) ->
+  (forall s : state, exec e step s = match norm I32 (get s (VCnt 0) - 1) with Some z => Some (set s (VCnt 0) z) | None => None end) ->
+  (forall s : state, eval count s = Some (get s (VCnt 0) - get s (VPar a))) ->
+  adv_down_spec A a ->
+  St cells s -> at_outer a s y z -> (k < 0 -> get s (VIdx a) = 0) ->
+  exists s', exec e (SFor init cond step (SSeq A B) count) s = Some s' /\
+             St (cells ++ flat_map cellsof (run_down n (Z.to_nat (- k)))) s' /\
+             (forall v, m v = false -> var_eqb v (VIdx a) = false -> var_eqb v (VCnt 0) = false -> get s' v = get s v).
+Proof.
+  intros Hi Hc Hs Hcn HA HSt Hout Hx0. destruct Hn as [Pn Bn].
+  destruct (loop_down e init cond step (SSeq A B) count (VCnt 0) (VPar a) k
+              (fun j sj => St (cells ++ flat_map cellsof (run_down n j)) sj /\
+                 (forall v, m v = false -> var_eqb v (VIdx a) = false -> var_eqb v (VCnt 0) = false -> get sj v = get s v) /\
+                 ((0 < Z.to_nat (- k))%nat -> get sj (VIdx a) = Z.of_nat ((j * (n - 1)) mod n))) s Hi Hc Hs Hcn eq_refl Hkr)
+    as (s' & E & (HS' & Hk' & Hx')).
+  - apply Hka, HSt.
+  - cbn. rewrite app_nil_r. split; [apply St_set; [reflexivity|exact HSt]|].
+    split; [intros v _ _ Hvc; apply get_set_other, Hvc|]. intros Hpos. gs. rewrite Nat.mod_0_l by lia. apply Hx0. lia.
+  - intros j sj Hj (HSj & Hkj & Hxj) Hcj Hbj. specialize (Hxj ltac:(lia)).
+    assert (Hlt : ((j * (n - 1)) mod n < n)%nat) by (apply Nat.mod_upper_bound; lia).
+    assert (Hlt' : ((S j * (n - 1)) mod n < n)%nat) by (apply Nat.mod_upper_bound; lia).
+    cbn [exec].
+    rewrite (HA sj _ n (proj1 (HNa _ (proj1 HSj))) (proj2 (HNa _ (proj1 HSj))) Hxj Hlt Bn). cbn [bind].
+    rewrite down_idx by lia.
+    set (sj' := set sj (VIdx a) (Z.of_nat ((S j * (n - 1)) mod n))).
+    assert (Houtj : at_outer a sj' y z).
+    { apply (outer_keep s sj' (fun v => m v = false /\ var_eqb v (VIdx a) = false /\ var_eqb v (VCnt 0) = false));
+        [intros v (? & Hva & ?); unfold sj'; rewrite get_set_other by exact Hva; auto| |exact Hout].
+      intros b Hb. split; [apply Hm_outer, Hb|]. split; [|reflexivity]. cbn. apply Nat.eqb_neq. lia. }
+    destruct (HB (cells ++ flat_map cellsof (run_down n j)) sj' ((S j * (n - 1)) mod n)%nat)
+      as (s1 & E1 & S1 & G1); [apply St_set; [reflexivity|exact HSj] | apply get_set_same | exact Houtj | exact Hlt' |].
+    rewrite E1. eexists; split; [reflexivity|]. rewrite (G1 _ Hm_cnt).
+    assert (Hne : var_eqb (VCnt 0) (VIdx a) = false) by reflexivity.
+    unfold sj' at 1. rewrite (get_set_other _ (VIdx a) (VCnt 0)) by exact Hne. split; [exact Hcj|].
+    split. { rewrite <- Hbj. rewrite !(Hka _ (proj1 (proj2 S1))), !(Hka _ (proj1 (proj2 HSj))). reflexivity. }
+    rewrite run_down_S, flat_map_snoc, app_assoc.
+    split; [apply (St_set _ _ (VCnt 0)); [reflexivity|exact S1]|].
+    split.
+    + intros v Hmv Hva Hvc. rewrite get_set_other by exact Hvc. rewrite G1 by exact Hmv.
+      unfold sj'. rewrite get_set_other by exact Hva. apply Hkj; assumption.
+    + intros _. assert (Hne' : var_eqb (VIdx a) (VCnt 0) = false) by reflexivity.
+      rewrite (get_set_other _ (VCnt 0) (VIdx a)) by exact Hne'. rewrite (G1 _ Hm_a). unfold sj'. apply get_set_same.
+  - eauto.
+Qed.
+
+Lemma axis_run_split : flat_map cellsof (run_up n (Z.to_nat k)) ++ flat_map cellsof (run_down n (Z.to_nat (- k)))
+                       = flat_map cellsof (axis_run n k).
+Proof. destruct k; cbn [axis_run Z.to_nat Z.opp]; cbn; rewrite ?app_nil_r; reflexivity. Qed.
+
+(* ---- i = 0; up-loop; [i = 0;] down-loop *)
+Lemma axis_runs R0 i1 c1 s1 n1 A1 R i2 c2 s2 n2 A2 cells s :
+  (forall s : state, exec e R0 s = Some (set s (VIdx a) 0)) ->
+  (forall s : state, exec e i1 s = Some (set s (VCnt 0) 0)) ->
+  (forall s : state, eval c1 s = Some (b2z (get s (VCnt 0) <? get s (VPar a)))) ->
+  (forall s : state, exec e s1 s = match norm I32 (get s (VCnt 0) + 1) with Some z => Some (set s (VCnt 0) z) | None => None end) ->
+  (forall s : state, eval n1 s = Some (get s (VPar a) - get s (VCnt 0))) ->
+  adv_up_spec A1 a ->
+  ((forall s : state, exec e R s = Some (set s (VIdx a) 0)) \/ (forall s : state, exec e R s = Some s)) ->
+  (forall s : state, exec e i2 s = Some (set s (VCnt 0) 0)) ->
+  (forall s : state, eval c2 s = Some (b2z (get s (VPar a) <? get s (VCnt 0)))) ->
+  (forall s : state, exec e s2 s = match norm I32 (get s (VCnt 0) - 1) with Some z => Some (set s (VCnt 0) z) | None => None end) ->
+  (forall s : state, eval n2 s = Some (get s (VCnt 0) - get s (VPar a))) ->
+  adv_down_spec A2 a ->
+  St cells s -> at_outer a s y z ->
+  exists s', exec e (SSeq R0 (SSeq (SFor i1 c1 s1 (SSeq B A1) n1) (SSeq R (SFor i2 c2 s2 (SSeq A2 B) n2)))) s = Some s' /\
+             St (cells ++ flat_map cellsof (axis_run n k)) s' /\
+             (forall v, m v = false -> var_eqb v (VIdx a) = false -> var_eqb v (VCnt 0) = false -> get s' v = get s v).
+Proof.
+  intros HR0 Hi1 Hc1 Hs1 Hn1 HA1 HR Hi2 Hc2 Hs2 Hn2 HA2 HSt Hout.
+  cbn [exec]. rewrite HR0. cbn [bind].
+  assert (Hout0 : at_outer a (set s (VIdx a) 0) y z).
+  { apply (outer_keep s _ (fun v => var_eqb v (VIdx a) = false)); [intros v Hva; apply get_set_other, Hva| |exact Hout].
+    intros b Hb. cbn. apply Nat.eqb_neq. lia. }
+  destruct (axis_up i1 c1 s1 n1 A1 cells (set s (VIdx a) 0) Hi1 Hc1 Hs1 Hn1 HA1) as (sa & Ea & Sa & Ka & Xa);
+    [apply St_set; [reflexivity|exact HSt] | exact Hout0 | apply get_set_same |].
+  change (exec e (SFor i1 c1 s1 (SSeq B A1) n1) (set s (VIdx a) 0)) with
+         (exec e (SFor i1 c1 s1 (SSeq B A1) n1) (set s (VIdx a) 0)) in Ea.
+  match goal with |- exists s', bind ?X _ = _ /\ _ => replace X with (Some sa) end.
+  cbn [bind].
+  assert (Houta : at_outer a sa y z).
+  { apply (outer_keep (set s (VIdx a) 0) sa (fun v => m v = false /\ var_eqb v (VIdx a) = false /\ var_eqb v (VCnt 0) = false));
+      [intros v (? & ? & ?); auto| |exact Hout0].
+    intros b Hb. split; [apply Hm_outer, Hb|]. split; [|reflexivity]. cbn. apply Nat.eqb_neq. lia. }
+  assert (Hfin : forall sb, St (cells ++ flat_map cellsof (run_up n (Z.to_nat k))) sb -> at_outer a sb y z ->
+            (k < 0 -> get sb (VIdx a) = 0) ->
+            (forall v, m v = false -> var_eqb v (VIdx a) = false -> var_eqb v (VCnt 0) = false -> get sb v = get s v) ->
+            exists s', exec e (SFor i2 c2 s2 (SSeq A2 B) n2) sb = Some s' /\
+              St (cells ++ flat_map cellsof (axis_run n k)) s' /\
+              (forall v, m v = false -> var_eqb v (VIdx a) = false -> var_eqb v (VCnt 0) = false -> get s' v = get s v)).
+  { intros sb Sb Ob Xb Kb.
+    destruct (axis_down i2 c2 s2 n2 A2 _ sb Hi2 Hc2 Hs2 Hn2 HA2 Sb Ob Xb) as (sd & Ed & Sd & Kd).
+    exists sd. split; [exact Ed|]. rewrite <- app_assoc, axis_run_split in Sd. split; [exact Sd|].
+    intros v Hm1 Hv1 Hv2. rewrite Kd by assumption. apply Kb; assumption. }
+  destruct HR as [HR|HR]; rewrite HR; cbn [bind].
+  - apply Hfin.
+    + apply St_set; [reflexivity|exact Sa].
+    + apply (outer_keep sa _ (fun v => var_eqb v (VIdx a) = false)); [intros v Hva; apply get_set_other, Hva| |exact Houta].
+      intros b Hb. cbn. apply Nat.eqb_neq. lia.
+    + intros _. apply get_set_same.
+    + intros v Hm1 Hv1 Hv2. rewrite get_set_other by exact Hv1. rewrite Ka by assumption. apply get_set_other, Hv1.
+  - apply Hfin; [exact Sa | exact Houta | intros Hneg; apply Xa; lia |].
+    intros v Hm1 Hv1 Hv2. rewrite Ka by assumption. apply get_set_other, Hv1.
+Qed.
+
+End Axis.
+
+End Generic.
 
 End Tie.
